@@ -100,7 +100,17 @@ static unsigned long long max2(unsigned long long a, unsigned long long b){ retu
 #ifndef CMC2
 #define CMC2 0
 #endif
+#ifndef C19_NMAX
 #define C19_NMAX 16
+#endif
+/* typed allocation sites (text patches on the preprocessed copy redirect the four dr_malloc calls of dr_dump.c that allocate the
+   node array, the edge array and the index map to these): static typed arrays, so that cbmc keeps constant propagation */
+static dr_pi_dag_node C19_TB[2][C19_NMAX]; static int c19_tk;
+static dr_pi_dag_edge C19_EB[2][2 * C19_NMAX]; static int c19_ek;
+static long C19_MAP[C19_NMAX];
+void *c19_alloc_nodes(size_t sz){ __CPROVER_assert(sz <= sizeof(C19_TB[0]) && c19_tk < 2, "unwinding assertion: harness node-array bound"); return c19_tk++ == 0 ? (void *)C19_TB[0] : (void *)C19_TB[1]; }
+void *c19_alloc_edges(size_t sz){ __CPROVER_assert(sz <= sizeof(C19_EB[0]) && c19_ek < 2, "unwinding assertion: harness edge-array bound"); return c19_ek++ == 0 ? (void *)C19_EB[0] : (void *)C19_EB[1]; }
+void *c19_alloc_map(size_t sz){ __CPROVER_assert(sz <= sizeof(C19_MAP), "unwinding assertion: harness map bound"); return (void *)C19_MAP; }
 /* environment: qsort according to its contract (typed insertion sort over the edge array, calling the real comparison) */
 void qsort(void *base, size_t n, size_t sz, int (*cmp)(const void *, const void *)){
   dr_pi_dag_edge *E = (dr_pi_dag_edge *)base; size_t i, j;
@@ -157,6 +167,7 @@ static void c19_flatten_and_validate(dr_dag_node *root){
   dr_make_pi_dag(&G, root, GS.start_clock);
   c19_validate(&G, "recorded");
   CHECK(G.T[0].info.t_1 == root->info.t_1 && G.T[0].info.t_inf == root->info.t_inf, "C19 the flattened root carries the recorded totals");
+#ifndef C19_NOSHRINK
   /* conversion-time shrinking with its own (concrete) threshold */
   GS.opts.collapse_max_count = CMC2; GS.opts.uncollapse_min = 0; GS.opts.collapse_max = 0;
   dr_copy_pi_dag(&G2, &G);
@@ -165,6 +176,7 @@ static void c19_flatten_and_validate(dr_dag_node *root){
   { int k; CHECK(G2.T[0].info.t_1 == G.T[0].info.t_1 && G2.T[0].info.t_inf == G.T[0].info.t_inf, "C19 shrinking preserves work and critical path");
     for (k = 0; k < dr_dag_node_kind_section; k++) CHECK(G2.T[0].info.logical_node_counts[k] == G.T[0].info.logical_node_counts[k], "C19 shrinking preserves the interval counts");
     for (k = 0; k < dr_dag_edge_kind_max; k++) CHECK(G2.T[0].info.logical_edge_counts[k] == G.T[0].info.logical_edge_counts[k], "C19 shrinking preserves the edge counts"); }
+#endif
   WITNESS_IF(G.n > 1);
 }
 #endif
